@@ -148,6 +148,48 @@ fn hal_part() {
     let _ = SetDutyCycle::set_duty_cycle_fully_off(&mut u); let _ = SetDutyCycle::set_duty_cycle_fully_on(&mut u); let _ = SetDutyCycle::set_duty_cycle_fraction(&mut u, 1, 3); let _ = SetDutyCycle::set_duty_cycle_percent(&mut u, 37);
     let _ = p.set_duty_cycle_fully_off(); let _ = p.set_duty_cycle_fully_on(); let _ = p.set_duty_cycle_fraction(1, 3); let _ = p.set_duty_cycle_percent(37);
     emit("hal.pwm", dump(&log), dump(&plog));
+    // two instantiations of one mirrored trait in one mock: a provided method stubbed for SevenBitAddress, left alone for TenBitAddress —
+    // the un-mocked instantiation still runs the upstream default over its own `transaction`
+    {
+        use embedded_hal_1::i2c::TenBitAddress;
+        let log: Log = Default::default();
+        let (l7, l10) = (log.clone(), log.clone());
+        let mut u = Unimock::new((
+            I2cMock::write.with_types::<SevenBitAddress>().each_call(matching!(_, _)).answers_arc(Arc::new(move |_, addr, w| { push(&l7, format!("write7({addr},{w:?})")); Ok(()) })).at_least_times(0),
+            I2cMock::transaction.with_types::<TenBitAddress>().each_call(matching!(_, _)).answers_arc(Arc::new(move |_, addr, ops| { push(&l10, format!("tx10({addr},{})", show_ops(ops))); Ok(()) })).at_least_times(0),
+        )).no_verify_in_drop();
+        let mut rb = [0u8; 2];
+        let pn = std::panic::catch_unwind(std::panic::AssertUnwindSafe(|| {
+            let _ = I2c::<SevenBitAddress>::write(&mut u, 6u8, &[1]); let _ = I2c::<TenBitAddress>::write(&mut u, 600u16, &[2, 3]); let _ = I2c::<TenBitAddress>::write_read(&mut u, 601u16, &[4], &mut rb);
+        })).err().map(|p| format!(";panicked:{}", p.downcast_ref::<String>().cloned().unwrap_or_default().lines().next().unwrap_or(""))).unwrap_or_default();
+        emit("hal.i2c-two-instantiations", format!("{}{pn}", dump(&log)), "write7(6,[1]);tx10(600,W[2, 3]);tx10(601,W[4],R2)".into());
+    }
+    // a required method answered by a closure that itself calls an un-mocked PROVIDED method on the mock it is handed, reached through
+    // another un-mocked provided method (delegation inside delegation)
+    {
+        use embedded_hal_1::digital::{OutputPin, PinState};
+        use unimock::mock::embedded_hal_1::digital::OutputPinMock;
+        let log: Log = Default::default();
+        let (lh, ll) = (log.clone(), log.clone());
+        let mut u = Unimock::new((
+            OutputPinMock::set_high.each_call(matching!()).answers_arc(Arc::new(move |u| { push(&lh, "high".into()); OutputPin::set_state(u, PinState::Low) })).at_least_times(0),
+            OutputPinMock::set_low.each_call(matching!()).answers_arc(Arc::new(move |_| { push(&ll, "low".into()); Ok(()) })).at_least_times(0),
+        )).no_verify_in_drop();
+        struct PO(Log);
+        impl embedded_hal_1::digital::ErrorType for PO { type Error = core::convert::Infallible; }
+        impl OutputPin for PO {
+            fn set_high(&mut self) -> Result<(), Self::Error> { push(&self.0, "high".into()); self.set_state(PinState::Low) }
+            fn set_low(&mut self) -> Result<(), Self::Error> { push(&self.0, "low".into()); Ok(()) }
+        }
+        let plog: Log = Default::default();
+        let mut p = PO(plog.clone());
+        let r = match std::panic::catch_unwind(std::panic::AssertUnwindSafe(|| (OutputPin::set_state(&mut u, PinState::High).is_ok(), OutputPin::set_state(&mut u, PinState::Low).is_ok()))) {
+            Ok(r) => format!("{r:?}"),
+            Err(p) => format!("panicked:{};", p.downcast_ref::<String>().cloned().unwrap_or_default().lines().next().unwrap_or("")),
+        };
+        let rp = (p.set_state(PinState::High).is_ok(), p.set_state(PinState::Low).is_ok());
+        emit("hal.output-pin-nested-delegation", format!("{r}{}", dump(&log)), format!("{rp:?}{}", dump(&plog)));
+    }
     // InputPin + Error kinds: entry points
     let mut u = Unimock::new((InputPinMock::is_high.each_call(matching!()).answers_arc(Arc::new(|_| Ok(true))).at_least_times(0), InputPinMock::is_low.each_call(matching!()).answers_arc(Arc::new(|_| Ok(false))).at_least_times(0))).no_verify_in_drop();
     use embedded_hal_1::digital::InputPin;
